@@ -13,7 +13,7 @@ from vf.fixtures import check, expect_raises, wone_of
 
 PROPERTY = "C15"
 CASE_TIMEOUT_S = 10      # a case normally takes < 0.2 s; see DESIGN.md 2.9 (hang handling)
-BUDGET = {"quick": 800, "thorough": 1200}
+BUDGET = {"quick": 1200, "thorough": 3600}
 RULE = ("Parameter grids over the fixture model's kwargs (a, b: small lists with repeated values or scalars; stop = the model's own "
         "completion time, scalar or list; cost = per-run sleep 0-4 ms so that completion order is permuted), as dict and as "
         "ParameterList; repetitions 1-3; max_timesteps below / at / above stop or default; collectors None / 'rec' / ['rec'] / "
@@ -24,7 +24,7 @@ RULE = ("Parameter grids over the fixture model's kwargs (a, b: small lists with
         "consecutive timesteps from 0, none at/after the limit or the completion); collectors=None -> []; an injected failure "
         "reaches the caller as InjectedFailure with that combination; invalid collectors type -> AttributeError. Non-trivial: "
         ">= 2 combinations x >= 2 repetitions with >= 2 processes, or a failure injected at a position > 0. Distinct = digest.")
-EXHAUSTIVE_DOMAIN = ("fixed grids (2x2, 3x1 [quick]; + 2x2x2 [thorough]) x processes 1..3 (thorough 1..16) x failing position "
+EXHAUSTIVE_DOMAIN = ("two 3-run batches in which one execution (a healthy one / the failing one) sleeps 1.3 s while the others take milliseconds; fixed grids (2x2, 3x1 [quick]; + 2x2x2 [thorough]) x processes 1..3 (thorough 1..16) x failing position "
                      "0..n-1 x {constructor, system} and the no-failure run")
 ASSUMPTIONS = ["the OS schedule is perturbed (per-run sleeps, process counts) but not owned: a loss that needs one particular "
                "interleaving inside multiprocessing itself is out of reach"]
@@ -76,8 +76,12 @@ class SigCollector(Collector):
 
 
 class BatchModel(Model):
-    def __init__(self, a, b=0, stop=3, cost=0, fail_sig="", fail_where="ctor", fail_exc="injected"):
+    def __init__(self, a, b=0, stop=3, cost=0, fail_sig="", fail_where="ctor", fail_exc="injected", dt=None, slow_sig="", slow_ms=0):
         super().__init__()
+        if slow_ms and slow_sig == f"a={a},b={b},stop={stop}":
+            time.sleep(int(slow_ms) / 1000.0)          # one execution takes over a second while the others take milliseconds
+        if dt is not None:
+            self.timestep = dt          # the model's OWN attribute of that name (a step length, say): not the scheduler's counter
         sig = f"a={a},b={b},stop={stop}"
         if cost:
             time.sleep((hash(sig) % (int(cost) + 1)) / 1000.0 if cost > 0 else 0)
@@ -102,6 +106,14 @@ def run_case(case):
         quiesce()
 
 
+def _call(case, p, kw):
+    """batch_run by keyword (usual) or with every argument in its documented position:
+    (model_cls, parameters, collectors, processes, max_timesteps, repetitions)"""
+    if case.get("positional") and "max_timesteps" in kw:
+        return batch_run(BatchModel, p, kw.get("collectors"), kw["processes"], kw["max_timesteps"], kw["repetitions"])
+    return batch_run(BatchModel, p, **kw)
+
+
 def _run_case(case):
     a, b, stop = case["a"], case.get("b", 0), case.get("stop", 3)
     cost = int(case.get("cost", 0))
@@ -116,6 +128,11 @@ def _run_case(case):
         raise InvalidCase("too large")
     sigs = [f"a={x},b={y},stop={s}" for x, y, s in combos]
     params = {"a": a, "b": b, "stop": stop, "cost": cost}
+    if case.get("dt") is not None:
+        params["dt"] = case["dt"]
+    if case.get("slow") is not None and combos:
+        params["slow_sig"] = sigs[int(case["slow"]) % len(sigs)]
+        params["slow_ms"] = max(0, min(int(case.get("slow_ms", 1300)), 2500))
     fail = case.get("fail")
     fail_sig = None
     if fail is not None and combos:
@@ -153,7 +170,7 @@ def _run_case(case):
         exc_type = FAILURES[params["fail_exc"]]
         desc += f" ({exc_type.__name__})"
         try:
-            res = batch_run(BatchModel, p, **kw)
+            res = _call(case, p, kw)
         except exc_type as e:
             if exc_type is not ModelCompleteError and (not e.args or e.args[0] != fail_sig):
                 raise Violation("failure-mixed-up", f"{desc}: the {exc_type.__name__} carries {e.args}, expected {fail_sig}")
@@ -166,7 +183,7 @@ def _run_case(case):
         return {"nontrivial": pos > 0, "labels": ["failure-injected", f"fail-{case.get('fail_where', 'ctor')}", f"exc-{exc_type.__name__}", f"procs{min(procs, 4)}{'+' if procs >= 4 else ''}"]}
 
     try:
-        res = batch_run(BatchModel, p, **kw)
+        res = _call(case, p, kw)
     except Exception as e:
         raise Violation("batch-raised", f"{desc}: raised {type(e).__name__}: {e}")
     if not isinstance(res, list):
@@ -224,6 +241,10 @@ def _run_case(case):
         if len(set(flat)) != len(flat):
             raise Violation("results-shared", f"{desc}: the same list object is returned for several executions")
     labels = (["runs>64"] if len(combos) * reps > 64 else []) + [f"procs{min(procs, 4)}{'+' if procs >= 4 else ''}", f"reps{reps}", "coll-" + ("rec" if coll == "rec" else ("list1" if coll == ["rec"] else ("pre+rec" if coll[0] == "pre" else "list2")))]
+    if case.get("dt") is not None:
+        labels.append("model-has-own-timestep-attribute")
+    if case.get("slow") is not None:
+        labels.append("one-execution-takes-over-a-second")
     if max_ts is not None:
         labels.append("limit-below" if any(int(max_ts) < int(s) for _, _, s in combos) else "limit-at-or-above")
     if len(set(sigs)) < len(sigs):
@@ -250,7 +271,12 @@ def strategy(tier):
         "fail": st.one_of(st.none(), st.none(), st.integers(0, 129)), "fail_where": st.sampled_from(["ctor", "system"]),
         "fail_exc": st.sampled_from(["injected", "stopiteration"])}))
     small = _small(maxp)
-    return wone_of(*([small] * 11 + [long_batch]))
+    slow = st.fixed_dictionaries({"a": st.just([0, 1, 2]), "b": st.sampled_from([0, [0, 1]]), "stop": st.sampled_from([1, 2]), "cost": st.just(0),
+                                  "reps": st.sampled_from([1, 2]), "processes": st.sampled_from([2, 3, 4]), "max_timesteps": st.sampled_from([None, 1]),
+                                  "collectors": st.sampled_from(["rec", ["pre", "rec"]]), "plist": st.booleans(), "slow": st.integers(0, 5),
+                                  "slow_ms": st.sampled_from([1150, 1300, 2100]), "fail": st.one_of(st.none(), st.none(), st.integers(0, 5)),
+                                  "fail_where": st.just("ctor"), "fail_exc": st.just("injected")})
+    return wone_of(*([small] * 44 + [long_batch] * 4 + [slow]))
 
 
 def _small(maxp):
@@ -259,7 +285,7 @@ def _small(maxp):
         "a": wone_of(small, small, st.integers(0, 3)),
         "b": wone_of(st.integers(0, 3), st.lists(st.integers(0, 2), min_size=1, max_size=2)),
         "stop": wone_of(st.integers(0, 6), st.integers(1, 6), st.lists(st.integers(0, 6), min_size=1, max_size=2)),
-        "cost": st.sampled_from([0, 0, 2, 4]),
+        "cost": st.sampled_from([0, 0, 2, 4]), "dt": st.sampled_from([None, None, None, None, 0.25, 2, 100]), "positional": st.sampled_from([False, False, True]),
         "reps": st.integers(1, 3),
         "processes": wone_of(st.just(1), st.integers(2, maxp), st.integers(2, maxp), st.integers(2, 3)),
         "max_timesteps": wone_of(st.none(), st.integers(0, 8)),
@@ -277,6 +303,10 @@ def exhaustive(tier):
     if tier != "quick":
         grids.append({"a": [0, 1], "b": [0, 1], "stop": [1, 3]})
         procs = range(1, 17)
+    # one execution that takes well over a second (a polling collector with a timeout must keep waiting for it), also a failing one
+    slow = {"a": [0, 1, 2], "b": 0, "stop": 1, "cost": 0, "reps": 1, "max_timesteps": None, "collectors": "rec", "plist": False, "slow_ms": 1300}
+    yield dict(slow, processes=2, slow=0, fail=None)
+    yield dict(slow, processes=3, slow=2, fail=2, fail_where="ctor")
     for g in grids:
         n = len(values(g["a"])) * len(values(g["b"])) * len(values(g["stop"]))
         for p in procs:
